@@ -27,6 +27,9 @@ func init() {
 			{Name: "property-patch-unchecked", File: "guidedremediation/internal/manifest/maven/pomxml.go", Old: "	if start < 0 || !strings.HasPrefix(s2, s1[:start]) {", New: "	if !strings.HasPrefix(s2, s1[:max(start, 0)]) {", Rule: "D2-bounds", Site: "generatePropertyPatchesAux"},
 			{Name: "origin-joined-without-separator", File: "guidedremediation/internal/manifest/maven/pomxml.go", Old: "	return tokens[1], strings.Join(tokens[2:], \"@\")", New: "	return tokens[1], strings.Join(tokens[2:], \"\")", Rule: "D5-origin-separator", Site: "parentPathFromOrigin"},
 			{Name: "origin-suffix-bare-component", File: "guidedremediation/internal/manifest/maven/pomxml.go", Old: "depOrigin, _ = strings.CutSuffix(depOrigin, \"@\"+mavenutil.OriginManagement)", New: "depOrigin = strings.TrimSuffix(depOrigin, mavenutil.OriginManagement)", Rule: "D5-origin-separator", Site: "buildPatches"},
+			{Name: "property-value-cut-with-trimright", File: "guidedremediation/internal/manifest/maven/pomxml.go", Old: "patches[s1[start+2:end]] = s2[start : len(s2)-len(remainder)]", New: "patches[s1[start+2:end]] = strings.TrimRight(s2[start:], remainder)", Rule: "D8-no-computed-cutset", Site: "generatePropertyPatchesAux"},
+			{Name: "section-marked-under-other-origin", File: "guidedremediation/internal/manifest/maven/pomxml.go", Old: "				o := mavenOrigin(prefix, id, mavenutil.OriginManagement)\n				updated[o] = true\n", New: "				o := mavenOrigin(prefix, id, mavenutil.OriginManagement)\n				updated[mavenutil.OriginManagement] = true\n", Rule: "D6-section-bookkeeping", Site: "writeProject"},
+			{Name: "differing-entry-overwritten", File: "guidedremediation/internal/manifest/npm/packagejson.go", Old: "			depStr = \"dependencies.\" + key\n			if res := gjson.GetBytes(manif, depStr); res.Exists() {\n				ver := res.String()\n				if ver != origVer {\n					if !alreadyMatched {\n						return fmt.Errorf(\"original dependency version does not match patch: %s %q != %q\", name, ver, origVer)\n					}\n					// dependency was already matched, so we can ignore it.\n				} else {\n", New: "			depStr = \"dependencies.\" + key\n			if res := gjson.GetBytes(manif, depStr); res.Exists() {\n				ver := res.String()\n				if ver != origVer && !alreadyMatched {\n					return fmt.Errorf(\"original dependency version does not match patch: %s %q != %q\", name, ver, origVer)\n				}\n				{\n", Rule: "D7-addressed-only", Site: "Write"},
 		},
 	})
 }
@@ -48,6 +51,8 @@ func runC13(p *Prog, r *Report) {
 	r.Rule("D3-applied-or-error", "package.json: an update is applied or Write fails")
 	r.Rule("D4-identity", "package.json: the buffer changes only inside the update loop; it is what gets written")
 	r.Rule("D5-origin-separator", "pom.xml: origin strings are split, joined and trimmed with the '@' separator")
+	r.Rule("D7-addressed-only", "package.json: an entry is rewritten only when its current value equals the update's original version")
+	r.Rule("D8-no-computed-cutset", "manifest writers never trim with a computed cutset (suffix/prefix removal uses TrimSuffix/TrimPrefix/slicing)")
 	r.Rule("D6-section-bookkeeping", "pom.xml: a section is marked as handled under the origin whose patches were applied to it")
 	for _, fn := range p.FuncsIn("guidedremediation/internal/manifest/npm", "guidedremediation/internal/manifest/maven") {
 		checkBoundsA(p, r, "D2-bounds", fn, auditedC13)
@@ -65,6 +70,8 @@ func runC13(p *Prog, r *Report) {
 	c13PackageJSON(p, r)
 	c13Origins(p, r)
 	c13Sections(p, r)
+	c13Addressed(p, r)
+	c13Cutsets(p, r)
 }
 
 func c13PackageJSON(p *Prog, r *Report) {
@@ -489,4 +496,118 @@ func c13Sections(p *Prog, r *Report) {
 		r.Check(okK, "D6-section-bookkeeping", site, p.Pos(mu.Pos()), "marked under the origin whose patches are applied", "a pom.xml section is marked as handled under a different origin than the one whose patches are applied to it: write() then skips (or duplicates) the new entries of the other origin, and the update is reported as written although the file lacks it")
 	})
 	r.Instances("D6-section-bookkeeping", "sections marked as handled in writeProject", n, 3)
+}
+
+
+// c13Addressed: in the package.json writer every sjson.Set of a path P is reachable, since the
+// value at P was read (gjson.Get(manifest, P).String()), only through the "equal" edge of a
+// comparison of that value with the update's original version. Rewriting an entry whose current
+// constraint differs (the same package also listed in another section) changes a requirement the
+// patch did not address.
+func c13Addressed(p *Prog, r *Report) {
+	fn := p.Func("guidedremediation/internal/manifest/npm", "readWriter.Write")
+	if fn == nil {
+		r.Undecided("D7-addressed-only", "anchor:npm.readWriter.Write", "-", "not found")
+		return
+	}
+	n := 0
+	forEachInstr(fn, func(b *ssa.BasicBlock, _ int, in ssa.Instruction) {
+		set, ok := in.(*ssa.Call)
+		if !ok {
+			return
+		}
+		rf := refOf(set.Common())
+		if rf.Pkg != "github.com/tidwall/sjson" || !strings.HasPrefix(rf.Name, "Set") {
+			return
+		}
+		n++
+		path := set.Call.Args[1]
+		site := fmt.Sprintf("%s:set#%d", fnKey(fn), n)
+		// comparisons  <gjson.Get*(_, path').String()> ==/!= X  with path' the same value as path
+		var eqEdges []Edge
+		var readBlk *ssa.BasicBlock
+		for _, blk := range fn.Blocks {
+			ifi := blockIf(blk)
+			if ifi == nil {
+				continue
+			}
+			bo, ok := ifi.Cond.(*ssa.BinOp)
+			if !ok || (bo.Op != token.EQL && bo.Op != token.NEQ) {
+				continue
+			}
+			for _, side := range []ssa.Value{bo.X, bo.Y} {
+				sc, ok := side.(*ssa.Call)
+				if !ok || refOf(sc.Common()).Name != "String" || len(sc.Call.Args) != 1 {
+					continue
+				}
+				gc, _ := callValue(loadAddrDeep(sc.Call.Args[0]))
+				if gc == nil || refOf(gc.Common()).Pkg != "github.com/tidwall/gjson" || !strings.HasPrefix(refOf(gc.Common()).Name, "Get") {
+					continue
+				}
+				if gc.Call.Args[1] != path && renderValueDeep(gc.Call.Args[1]) != renderValueDeep(path) {
+					continue
+				}
+				if bo.Op == token.EQL {
+					eqEdges = append(eqEdges, Edge{blk, 0})
+				} else {
+					eqEdges = append(eqEdges, Edge{blk, 1})
+				}
+				readBlk = gc.Block()
+			}
+		}
+		if len(eqEdges) == 0 || readBlk == nil {
+			r.Fail("D7-addressed-only", site, p.Pos(set.Pos()), "the entry is rewritten without comparing its current value with the update's original version")
+			return
+		}
+		ok2 := !reachable(readBlk, edgesOf(eqEdges), nil)[b]
+		r.Check(ok2, "D7-addressed-only", site, p.Pos(set.Pos()), "rewritten only on the current == original edge", "an entry of package.json can be rewritten although its current constraint differs from the update's original version (e.g. the package is also listed, with another constraint, in a lower-priority section): a requirement the patch did not address is changed")
+	})
+	r.Instances("D7-addressed-only", "sjson.Set calls in the package.json writer", n, 3)
+}
+
+// loadAddrDeep strips loads and field selections down to the value a method receiver was taken from.
+func loadAddrDeep(v ssa.Value) ssa.Value {
+	for d := 0; d < 6; d++ {
+		switch x := v.(type) {
+		case *ssa.UnOp:
+			if x.Op != token.MUL {
+				return v
+			}
+			if al, ok := x.X.(*ssa.Alloc); ok {
+				ss := storesTo(al)
+				if len(ss) == 1 {
+					v = ss[0]
+					continue
+				}
+				return v
+			}
+			v = x.X
+		default:
+			return v
+		}
+	}
+	return v
+}
+
+// c13Cutsets: strings.Trim/TrimLeft/TrimRight take a *set of characters*; with a computed second
+// argument they strip every trailing/leading character that occurs in it, not the suffix/prefix.
+func c13Cutsets(p *Prog, r *Report) {
+	n := 0
+	for _, fn := range p.FuncsIn("guidedremediation/internal/manifest/npm", "guidedremediation/internal/manifest/maven") {
+		forEachInstr(fn, func(_ *ssa.BasicBlock, _ int, in ssa.Instruction) {
+			c, ok := in.(*ssa.Call)
+			if !ok {
+				return
+			}
+			rf := refOf(c.Common())
+			if (rf.Pkg != "strings" && rf.Pkg != "bytes") || (rf.Name != "Trim" && rf.Name != "TrimLeft" && rf.Name != "TrimRight") {
+				return
+			}
+			n++
+			_, isConst := c.Call.Args[1].(*ssa.Const)
+			site := fmt.Sprintf("%s:%s(%s)", fnKey(fn), rf.Name, short(renderValueDeep(c.Call.Args[1]), 60))
+			r.Check(isConst, "D8-no-computed-cutset", site, p.Pos(c.Pos()), "constant cutset", "strings."+rf.Name+" is called with a computed cutset: it removes every leading/trailing character that occurs in that string, not the string as a prefix/suffix — a version or property value ending in one of those characters is truncated (2.10 → 2.1)")
+		})
+	}
+	r.Count("Trim-family calls in the manifest writers", n)
 }
